@@ -72,6 +72,25 @@ Theorem C03_committed_covered : forall cfg ls s, cfg_start cfg = FirstOffset ->
 Proof. exact committed_covered. Qed.
 Print Assumptions C03_committed_covered.
 
+
+(* Generation end with requests still queued in Reader.commits (sync mode): the ctx.Done branch
+   FIRST drains the queue into the stash and THEN commits; every drained request waits for that
+   final commit and the commit carries an offset >= each of its commits.  Together with
+   C03_sync_commit_recorded (which covers every nil answer, including those of the final
+   commit): a request answered nil after the generation ended is covered by a recorded
+   OffsetCommit. *)
+Theorem C03_final_commit_drains_first : forall cfg s r s', cfg_sync cfg = true ->
+  step cfg s (LLoopFinal r) = Some s' ->
+  exists ws,
+    rd_loop (st_rd s' r) = CLBusy ws commitRetries true 0 /\
+    rd_commits (st_rd s' r) = [] /\
+    forall rq, In rq (rd_commits (st_rd s r)) ->
+      In (cq_id rq) ws /\
+      forall t c, In (t, c) (cq_commits rq) ->
+        exists c', lookup (rd_stash (st_rd s' r)) t = Some c' /\ c <= c'.
+Proof. exact final_drains_then_commits. Qed.
+Print Assumptions C03_final_commit_drains_first.
+
 (* ---- StartOffset = LastOffset: REFUTED.  A generation that ends without a commit leaves
    no committed offset, the next generation restarts at the THEN-latest offset: the records
    appended in between (>= the first start offset) are skipped, and the next acknowledged
@@ -164,3 +183,30 @@ Theorem C03_skeleton_assumptions :
   KV.Model.SkeletonAssumptions.reader_assumptions_hold KV.Gen.Skeleton.calls KV.Gen.Skeleton.accesses = true.
 Proof. exact KV.Proofs.SkeletonReader.reader_skeleton_ok. Qed.
 Print Assumptions C03_skeleton_assumptions.
+
+(* non-vacuity of the queued-at-generation-end case: three calls on distinct partitions are
+   while the loop is busy with a failing commit of the first, the other two are queued and
+   the generation ends; they are drained into ONE final commit that answers both *)
+Definition tp1 : tp := (0%N, 1%N).
+Definition tp2 : tp := (0%N, 2%N).
+Definition demo_end : list label :=
+  [LAppend tp0; LAppend tp1; LAppend tp2;
+   LJoinSync 0 true [tp0; tp1; tp2]; LOffsetFetch 0; LSubscribe 0;
+   LReaderInit 0 tp0; LReaderInit 0 tp1; LReaderInit 0 tp2;
+   LReaderEmit 0 tp0; LReaderEmit 0 tp1; LReaderEmit 0 tp2;
+   LFetchSnap 0; LFetchRecv 0; LFetchSnap 0; LFetchRecv 0; LFetchSnap 0; LFetchRecv 0;
+   LCommitCall 0 [(tp0, 0)]; LLoopRecv 0; LLoopAttempt 0 (FCode 16);
+   LCommitCall 0 [(tp1, 0)]; LCommitCall 0 [(tp2, 0)];
+   LGenEnd 0; LLoopAttempt 0 NoFault;
+   LLoopFinal 0; LLoopAttempt 0 NoFault].
+Example C03_demo_queued_at_generation_end :
+  match run (step cfg_first) init demo_end with
+  | Some s =>
+    match st_hist s with
+    | EvCommitRet 0 1 RNil :: EvCommitRet 0 2 RNil :: EvOffsetCommit 0 _ _ offs 0 true :: _ =>
+      (C03_holds cfg_first (st_hist s) && Nat.eqb (length offs) 2)%bool = true
+    | _ => False
+    end
+  | None => False
+  end.
+Proof. vm_compute. reflexivity. Qed.
